@@ -93,6 +93,9 @@ def plan(beh, j):
         return response(R, "204") + b"stray-body", [], False
     if beh == "silent-close":
         return b"", [], True
+    if beh == "surplus-same-close":
+        # the surplus response itself says "Connection: close"
+        return response(R) + response(S, "close"), [], False
     if beh == "surplus-partial-same":
         # the start of a further response head glued to the end of the answer
         return response(R) + response(S)[:25], [], False
@@ -212,9 +215,10 @@ class Scen:
         # layout bookkeeping: which byte ranges are the genuine answer to j
         own = response(f"R{j}", "cl")
         own_len = len(data)
-        for b in ("surplus-same", "surplus-same-chunked", "204-surplus", "surplus-partial-same"):
+        for b in ("surplus-same", "surplus-same-chunked", "204-surplus", "surplus-partial-same", "surplus-same-close"):
             if self.behs[j % len(self.behs)] == b:
-                own_len = len(data) - (25 if b == "surplus-partial-same" else len(response(f"STALE{j}")) if b != "204-surplus" else len(b"stray-body"))
+                own_len = len(data) - (25 if b == "surplus-partial-same" else len(response(f"STALE{j}", "close")) if b == "surplus-same-close"
+                                       else len(response(f"STALE{j}")) if b != "204-surplus" else len(b"stray-body"))
         self.sent_map.setdefault(c, []).append((base, base + own_len, j))
         if own_len < len(data):
             self.sent_map[c].append((base + own_len, base + len(data), None))
@@ -404,7 +408,7 @@ def factory(case, loop):
 
 
 STRAY = ["surplus-same", "surplus-same-chunked", "surplus-later", "partial-stray-later", "garbage-later", "crlf-later",
-         "two-stale-later", "1xx-late", "conn-close-then-stale", "204-surplus", "surplus-partial-same", "bare101-later"]
+         "two-stale-later", "1xx-late", "conn-close-then-stale", "204-surplus", "surplus-partial-same", "bare101-later", "surplus-same-close"]
 PLAIN = ["exact", "chunked", "1xx", "eof", "conn-close", "trunc", "close-after", "204", "silent-close"]
 
 
